@@ -207,11 +207,53 @@ def oracleExpect (c : CaseIn) (chunks : List Bytes) (rkv : KV) : Option String :
   | none => none
   | some want => if get rkv "end" = want then none else some (c.camp ++ ":xend:got=" ++ get rkv "end" ++ ":want=" ++ want)
 
+/-- C08 oracle: compare what the implementation delivered / announced / encoded with the
+    generator's expectations (built from how the Bind message was constructed) -/
+def oracleBind (c : CaseIn) (chunks : List Bytes) (rkv : KV) : Option String :=
+  let frames := implFrames chunks
+  let evs := (get rkv "ev").splitOn ";"
+  let want (k : String) : Option String := (c.kv.lookup k).map fun v => (v.drop 1).toString
+  let chk (k : String) (got : String) : Option String :=
+    match want k with
+    | none => none
+    | some w => if got = w then none else some ("C08:" ++ k ++ ":got=" ++ got ++ ":want=" ++ w)
+  -- parameters seen by the statement function: last ':'-separated part of the X event
+  let xev := evs.find? (·.startsWith "X:")
+  let gotX := match xev with
+    | some e => ((e.splitOn ":").getLast?).getD ""
+    | none => "<no-exec>"
+  let notes := evs.filter (·.startsWith "N") |>.map fun e => (e.drop 1).toString
+  let afterBind := (frames.dropWhile (·.1 ≠ ch '2')).drop 1
+  let tf := match afterBind.find? (·.1 = ch 'T') with
+    | some (_, b) => (match rd16 b with
+        | some (n, r) => (match parseColDescs n r with
+          | some cols => ",".intercalate (cols.map fun cf => toString cf.2)
+          | none => "<bad-T>")
+        | none => "<bad-T>")
+    | none => "<no-T>"
+  let dr := match afterBind.find? (·.1 = ch 'D') with
+    | some (_, b) => (match rd16 b with
+        | some (n, r) => (match parseFields n r with
+          | some fs => ",".intercalate (fs.map fun f => match f with | some v => hexOf v | none => "~")
+          | none => "<bad-D>")
+        | none => "<bad-D>")
+    | none => "<no-D>"
+  let pd := match frames.find? (·.1 = ch 't') with
+    | some (_, b) => (match rd16 b with
+        | some (n, r) => (match parseOids n r with
+          | some os => ",".intercalate (os.map toString)
+          | none => "<bad-t>")
+        | none => "<bad-t>")
+    | none => "<no-t>"
+  (chk "xx" gotX).orElse fun _ => (chk "xn" (",".intercalate notes)).orElse fun _ =>
+  (chk "xtf" tf).orElse fun _ => (chk "xd" dr).orElse fun _ => chk "xt" pd
+
 def oracle (c : CaseIn) (chunks : List Bytes) (rkv : KV) : Option String :=
   if c.camp = "errors" then oracleErrors c chunks
   else if c.camp = "params" then oracleParams c rkv
   else if c.camp = "paramsd" then oracleParamsDescribe c chunks
   else if c.camp = "accessor" then oracleAccessor c rkv
+  else if c.camp = "bind" then oracleBind c chunks rkv
   else oracleExpect c chunks rkv
 
 def processLine (line : String) : String :=
